@@ -28,6 +28,7 @@ ASSUMPTIONS = [
     'unsorted indices inside a row are allowed (the spec does not forbid '
     'them); duplicates are detected by decoding twice (assign / accumulate)',
 ]
+ANCHORS = ['Table.to_hdf5', 'general_formatter', 'vlen_list_of_str_formatter', '_convert']
 REQUIRED = ['format_fs_writes', 'spec_decodes', 'empty_axis_tables', 'all_zero_tables',
             'cli_convert_files', 'layout_csc_seen', 'layout_unsorted_seen',
             'inplace_zeroed_tables']
